@@ -212,6 +212,8 @@ def compare(I, st, op, a, b, fr, k):
             # None / sentinels / False / True / objects
         elif isinstance(a, ClassV) and isinstance(b, ClassV):
             c = z3.BoolVal(a.q == b.q)
+        elif (isinstance(a, Sym) and isinstance(b, LSet) and b.frozen) or (isinstance(b, Sym) and isinstance(a, LSet) and a.frozen):
+            c = as_sym(I, st, a).t == as_sym(I, st, b).t
         else:
             c = z3.BoolVal(a is b)
         if isinstance(op, ast.IsNot):
@@ -400,8 +402,17 @@ def getattr_sym(I, st, v, name, fr, k):
         # unknown static type: primitive methods dispatch at call time on the runtime tag
         if name in PRIM_METHODS:
             s = z3.simplify(is_ref(t))
-            if not z3.is_true(s):
+            if z3.is_true(z3.simplify(z3.Or(is_str(t), is_byt(t)))):
                 return k(st, BoundV(v, None, name))
+            if not z3.is_true(s):
+                if fr.spec and not I.feasible(st, z3.Or(is_str(t), is_byt(t))):
+                    pass          # spec on a non-string (e.g. a None literal in a dead branch): plain field read below
+                else:
+                    return k(st, BoundV(v, None, name))
+            else:
+                from . import strings as _S
+                if name in _S.REF_METHODS and I.feasible(st, I.w.isinstance_term(t, _S.DICTLIKE + ["builtins.list", "builtins.tuple", "builtins.set", "builtins.frozenset", "collections.deque"])):
+                    return k(st, BoundV(v, None, name))
     def ok(s2):
         loc = get_loc(t)
         val = s2.read(name, loc)
@@ -611,7 +622,7 @@ def format_pieces(I, st, e, vals):
 # ---------------------------------------------------------------------------- loops
 def loop_spec(I, fr, node):
     """Sidecar invariant for this loop (by ordinal within the function under verification)."""
-    c = I.reg.contracts.get(fr.q)
+    c = I.cur if (I.cur is not None and fr.q == I.cur_q) else I.reg.contracts.get(fr.q)
     if c is None:
         return None
     fi = I.w.funcs.get(fr.q)
@@ -641,7 +652,7 @@ def assigned_names(stmts):
 def exec_for(I, st, s, fr):
     def with_iter(s2, itv):
         items = concrete_items(I, s2, itv)
-        if items is not None:
+        if items is not None and not isinstance(itv, (ItemsOf, OpaqueIter)):
             return unroll(I, s2, s, items, fr)
         return USER_FOR(I, s2, s, itv, fr)
     return I.ev(st, s.iter, fr, with_iter)
@@ -1026,6 +1037,22 @@ def b_frozenset(frozen):
 
 def USER_SET_FROM(I, st, v, frozen, fr, k):
     from .loops import GenOver
+    if isinstance(v, GenOver) and isinstance(v.src, Sym):
+        e_ = v.node
+        g_ = e_.generators[0]
+        is_lower_map = (isinstance(e_.elt, ast.Call) and isinstance(e_.elt.func, ast.Attribute) and e_.elt.func.attr == "lower"
+                        and isinstance(e_.elt.func.value, ast.Name) and isinstance(g_.target, ast.Name)
+                        and e_.elt.func.value.id == g_.target.id and not g_.ifs and not e_.elt.args)
+        if is_lower_map:
+            # {x.lower() for x in src}: a function of the source collection; lower-casing an already lower-case
+            # collection gives a set with the same content (stated as facts about the uninterpreted symbols)
+            note(I, "frozenset(x.lower() for x in c): a fresh set remembered (ghost function lowered_src) to be the lower-cased image of c")
+            loc = I.alloc(st, "builtins.frozenset" if frozen else "builtins.set")
+            res = mk_ref(loc)
+            st.fact(uf_v("lowered_src", res) == v.src.t)
+            n = st.read(LEN, loc)
+            st.fact(n >= 0)
+            return k(st, Sym(res, hint="builtins.frozenset" if frozen else "builtins.set"))
     if isinstance(v, GenOver) or isinstance(v, Sym):
         # over-approximation: a fresh set object with unconstrained content (sound; listed)
         note(I, "set()/frozenset() built from a collection of unknown size: content unconstrained (over-approximation)")
@@ -1189,6 +1216,11 @@ class ItemsOf(Value):
 
     def __init__(self, src):
         self.src = src
+
+
+def is_true_v(t):
+    """truthiness of a V term produced by an uninterpreted spec function (bool(uf(...)) in specs)"""
+    return z3.If(is_bool(t), get_b(t), z3.Not(is_none(t)))
 
 
 def uf_v(name, *ts):
